@@ -239,11 +239,12 @@ func c17Engine(sc *c17Sc, sp *Spies, mainSrc string) *twig.Engine {
 	return e
 }
 
-func (propC17) Run(scI interface{}) *Outcome {
+func (propC17) Run(scI interface{}) (o *Outcome) {
 	sc := scI.(*c17Sc)
-	o := &Outcome{Probes: map[string]int64{}}
-	w := simrt.Begin(simrt.Config{Seed: 17, PoolPolicy: sc.Pool, MapOrder: simrt.OrderSorted, ClockStart: 1_700_000_000e9, ClockStep: 1e6})
+	o = &Outcome{Probes: map[string]int64{}}
+	w := simrt.Begin(simrt.Config{PreemptDen: 4, Seed: 17, PoolPolicy: sc.Pool, MapOrder: simrt.OrderSorted, ClockStart: 1_700_000_000e9, ClockStep: 1e6})
 	defer simrt.End()
+	defer underScheduler(w, o)()
 	twig.SetDebugWriter(io.Discard)
 	saved := twig.VerifSwapGlobals(nil)
 	defer twig.VerifSwapGlobals(saved)
